@@ -330,7 +330,9 @@ def applyCondFn (id : Bytes) (args : List Val) : Option Bool :=
 /-- Condition-OK helpers: the harness-registered `vok(a, …)`: the text of its first argument, if that is
     non-empty, as a byte string, and whether it was. `none` = no such helper. -/
 def applyCondOKFn (id : Bytes) : Option (List Val → Val × Bool) :=
-  if id == lit "vok" then
+  -- `vokmaybe` returns without touching its outputs when there is nothing to return; the outputs are reset before
+  -- the call (repair: they used to keep the verdict of an earlier comparison), so that reads as (nil, false) too
+  if id == lit "vok" || id == lit "vokmaybe" then
     some (fun args => match args with
       | a :: _ => (match a.text with
         | some t => if t.isEmpty then (.nil, false) else (.bytes t, true)
